@@ -173,3 +173,21 @@ def ref_field_of_local(body, local, depth=4):
             continue
         return None
     return None
+
+
+def incomplete_tests(body):
+    """Tests 'is this nom error Incomplete?': [{bb, true (incomplete), false (hard error)}].
+    Idioms: `e.is_incomplete()` and a match on the discriminant of nom::Err."""
+    from . import tables
+    out = []
+    for bb in sorted(body.reachable()):
+        a = switch_atom(body, bb)
+        if a and a["kind"] == "call" and any(n.endswith("::is_incomplete") for n in a["names"]):
+            out.append({"bb": a["bb"], "true": a["true"], "false": [a["false"]]})
+    for sw in tables.discr_switches(body):
+        if sw["adt"].endswith("nom::internal::Err") and "Incomplete" in sw["arms"]:
+            others = [t for v, t in sw["arms"].items() if v != "Incomplete"]
+            if sw["otherwise"] not in others and not body.blocks[sw["otherwise"]]["t"]["k"] == "unreachable":
+                others.append(sw["otherwise"])
+            out.append({"bb": sw["bb"], "true": sw["arms"]["Incomplete"], "false": others})
+    return out
